@@ -53,7 +53,7 @@ DT_RE = re.compile(r"^\d{4}-\d\d-\d\d \d\d:\d\d:\d\d(\.\d+)?\+00:00$")
 
 
 def plan(tier, seed):
-    n = 640 if tier == "quick" else 16000
+    n = 640 if tier == "quick" else 9600
     shards = 16 if tier == "quick" else 40
     per = n // shards
     return [{"seed": seed * 1000003 + i, "n": per} for i in range(shards)]
